@@ -326,6 +326,16 @@ func (ws *writeScanner) scanIns(ins ssa.Instruction, inScope func(ssa.Instructio
 			keys["*"] = true
 			return
 		case strings.HasPrefix(name, "github.com/lunixbochs/struc.Pack"):
+			// writes the buffer passed as io.Writer (model: append to its buf field, fresh backing array)
+			if mi, ok := cc.Args[0].(*ssa.MakeInterface); ok {
+				if ws.isFreshRoot(mi.X, inScope, paramFresh, 0) {
+					return
+				}
+				if ws.pointOK && paramFresh == nil && outsideScope(mi.X, inScope) {
+					ws.objPoints = append(ws.objPoints, objPoint{mi.X, "Buffer.buf"})
+					return
+				}
+			}
 			keys["T:bytes.Buffer"] = true
 			return
 		case strings.HasPrefix(name, "(*bytes.Buffer).Write"), name == "(*text/template.Template).Execute":
@@ -337,8 +347,12 @@ func (ws *writeScanner) scanIns(ins ssa.Instruction, inScope func(ssa.Instructio
 			if wi < len(cc.Args) && ws.isFreshRoot(cc.Args[wi], inScope, paramFresh, 0) {
 				return
 			}
+			// (the models append into a fresh backing array: no existing byte array is written in place)
+			if wi < len(cc.Args) && wi == 0 && ws.pointOK && paramFresh == nil && outsideScope(cc.Args[0], inScope) {
+				ws.objPoints = append(ws.objPoints, objPoint{cc.Args[0], "Buffer.buf"})
+				return
+			}
 			keys["T:bytes.Buffer"] = true
-			keys["E:"+typeKey(types.NewSlice(types.Typ[types.Uint8]))] = true
 			return
 		}
 		if c := e.w.contractFor(f); c != nil && len(c.byKind("ensures")) > 0 && !c.Options["inline"] && !ws.followAll {
